@@ -173,7 +173,7 @@ func hasClass(res *eng.Result, class string) *eng.Violation {
 	return nil
 }
 
-var shrinkOrder = []string{"fault", "sched", "time", "swarm", "gen"}
+var shrinkOrder = []string{"fault", "arrival", "sched", "time", "swarm", "gen"}
 
 func one(args []string) {
 	fs := flag.NewFlagSet("one", flag.ExitOnError)
